@@ -225,6 +225,7 @@ func (w *World) env(extra ...string) []string {
 		"HOME=" + w.Home,
 		"XDG_CONFIG_HOME=" + filepath.Join(w.Home, ".config"),
 		"GIT_CONFIG_NOSYSTEM=1",
+		"GIT_CONFIG_GLOBAL=" + filepath.Join(w.Home, ".gitconfig"),
 		"GIT_TERMINAL_PROMPT=0",
 		"GIT_ASKPASS=",
 		"PATH=" + w.BinDir + ":" + os.Getenv("PATH"),
